@@ -1314,7 +1314,10 @@ func (e *FnEnc) strSub(s, lo, hi string) string {
 		ix := e.sorter.idxSort()
 		e.specDefs = append(e.specDefs,
 			fmt.Sprintf("(assert (forall ((a Int) (l %s) (h %s)) (! (= (str_len (str_sub a l h)) %s) :pattern ((str_sub a l h)))))", ix, ix, e.idxSub("h", "l")),
-			fmt.Sprintf("(assert (forall ((a Int) (l %s) (h %s) (k %s)) (! (= (str_at (str_sub a l h) k) (str_at a %s)) :pattern ((str_at (str_sub a l h) k)))))", ix, ix, ix, e.idxAdd("l", "k")))
+			// guarded by 0 <= k < h-l: unguarded, the empty substring str_sub(a,0,0) (equal to "" by extensionality)
+			// would give every string the characters of "", which contradicts any two distinct constants
+			fmt.Sprintf("(assert (forall ((a Int) (l %s) (h %s) (k %s)) (! (=> (and %s %s) (= (str_at (str_sub a l h) k) (str_at a %s))) :pattern ((str_at (str_sub a l h) k)))))", ix, ix, ix,
+				e.idxLe(e.idxConst(0), "k"), e.idxLt("k", e.idxSub("h", "l")), e.idxAdd("l", "k")))
 	}
 	return "(" + f + " " + s + " " + lo + " " + hi + ")"
 }
